@@ -171,8 +171,26 @@ def main(argv=None):
   by_key = collections.OrderedDict()
   for v in m['violations']:
     by_key.setdefault(v['key'], []).append(v)
-  unknown_keys = [k for k in by_key if k not in known]
-  known_hit = [k for k in by_key if k in known]
+  def known_entry(k):
+    """Exact match, or - for entries with \"match\": \"superset\" - same prefix before the last
+    ':' and a feature set (joined by '+') that contains the entry's features."""
+    if k in known:
+      return k
+    head, _, feats = k.rpartition(':')
+    for kk, rec_ in known.items():
+      if rec_.get('match') == 'superset':
+        h2, _, f2 = kk.rpartition(':')
+        if h2 == head and set(f2.split('+')) <= set(feats.split('+')):
+          return kk
+    return None
+
+  unknown_keys = [k for k in by_key if known_entry(k) is None]
+  hit_counts = collections.Counter()
+  for k in by_key:
+    kk = known_entry(k)
+    if kk is not None:
+      hit_counts[kk] += m['violation_counts'].get(k, 0)
+  known_hit = list(hit_counts)
 
   harness_errors = [p for p in problems if p[0] == 'worker-failed']
   watchdogs = [p for p in problems if p[0] == 'watchdog']
@@ -211,7 +229,7 @@ def main(argv=None):
       lines.append(f'  key={k}: {v["what"]}')
   for k in known_hit:
     lines.append(f'KNOWN-FINDING: property={check_id} {k}: {known[k].get("what", "")} '
-                 f'(seen {m["violation_counts"].get(k, 0)}x this run)')
+                 f'(seen {hit_counts[k]}x this run)')
   if status == 0 and reasons:
     status = 2
     lines.append(f'INCONCLUSIVE property={check_id} reason=' + ','.join(reasons))
@@ -226,7 +244,7 @@ def main(argv=None):
         'rule': check.RULE,
         'samples': m['samples'] or ['<none>'],
         'observed': dict(sorted(m['observed'].items())),
-        'known_findings_hit': {k: m['violation_counts'].get(k, 0) for k in known_hit},
+        'known_findings_hit': {k: hit_counts[k] for k in known_hit},
         'unlisted_violation_keys': unknown_keys,
         'shards': len(plan),
         'inconclusive_reasons': reasons,
